@@ -60,14 +60,14 @@ Proof. exact cos_unit_independent. Qed.
 Theorem C07_tan : forall (a b : qty RA) ta tb, same a b -> base_kind (qk a) = KAngularPosition -> @qtan RA a = Ok ta -> @qtan RA b = Ok tb -> ta = tb.
 Proof. exact tan_unit_independent. Qed.
 
-(** [same_system c c' load load' dt dt' W0 TM I0 IM L JJ DT]: the two descriptions have motor constants, load torque, equivalent inertia
-    and time step of the same SI magnitudes (each written in any unit) and the same products of gear ratios and of efficiencies;
-    [uniform D dt h]: never held, duty cycle D and step dt at every instant of h. *)
-Theorem C07_whole_run_partial : forall (c c' : @chain RA) load load' dt0 dt0' W0 TM I0 IM L JJ DT D ops ops' p w p' w' st st',
-  same_system c c' load load' dt0 dt0' W0 TM I0 IM L JJ DT ->
+(** [same_system c c' load load' W0 TM I0 IM L JJ]: the two descriptions have motor constants, load torque and equivalent inertia
+    of the same SI magnitudes (each written in any unit) and the same products of gear ratios and of efficiencies;
+    [uniform DT D h]: never held, duty cycle D, and every step of SI magnitude DT (in whatever unit each run expressed it), at every instant of h. *)
+Theorem C07_whole_run_partial : forall (c c' : @chain RA) load load' W0 TM I0 IM L JJ DT D ops ops' p w p' w' st st',
+  same_system c c' load load' W0 TM I0 IM L JJ ->
   I0 / IM < Rabs D -> 0 <= I0 /\ 0 < IM /\ 0 < W0 /\ 0 < JJ ->
   exec c load ops (initial p w) = Ok st -> exec c' load' ops' (initial p' w') = Ok st' ->
-  uniform D dt0 (y_hist st) -> uniform D dt0' (y_hist st') ->
+  uniform DT D (y_hist st) -> uniform DT D (y_hist st') ->
   forall t0 s0 pre t0' s0' pre', y_hist st = (pre ++ [(t0, s0)])%list -> y_hist st' = (pre' ++ [(t0', s0')])%list ->
   forall w0 p0 w0' p0' W00 P00, lastq (s_spd s0) = Ok w0 -> lastq (s_pos s0) = Ok p0 -> si w0 = Ok W00 -> si p0 = Ok P00 ->
                                 lastq (s_spd s0') = Ok w0' -> lastq (s_pos s0') = Ok p0' -> si w0' = Ok W00 -> si p0' = Ok P00 ->
